@@ -154,6 +154,55 @@ theorem getLastD_eq_getLast (l : Text) (ls : List Text) : (l :: ls).getLastD [] 
   | nil => rfl
   | cons m ms ih => simpa [List.getLastD, List.getLast_cons] using ih m
 
+/-! ### the quoted form (fixes D1, D3) is not taken under `descTextOK` -/
+
+theorem needsQuoted_single (l : Text) : SdlPrintT.needsQuoted [l] = false := by
+  simp [SdlPrintT.needsQuoted]
+
+theorem needsQuoted_notLead (l : Text) (ls : List Text) (h : ¬ l.length > (SdlPrintT.lstrip l).length) :
+    SdlPrintT.needsQuoted (l :: ls) = false := by
+  have : SdlPrintT.startsWs l = false := by
+    cases l with
+    | nil => rfl
+    | cons c t =>
+      cases hc : SdlPrintT.startsWs (c :: t) with
+      | false => rfl
+      | true =>
+        exfalso; apply h
+        have hw : SdlPrintT.isWs c = true := by
+          simp only [SdlPrintT.startsWs, Bool.or_eq_true, beq_iff_eq] at hc
+          rcases hc with rfl | rfl <;> decide
+        have : (SdlPrintT.lstrip (c :: t)).length ≤ t.length := by
+          simp only [SdlPrintT.lstrip, List.dropWhile_cons, hw, if_true]
+          exact (List.dropWhile_sublist _).length_le
+        simp only [List.length_cons]; omega
+  simp [SdlPrintT.needsQuoted, this]
+
+theorem needsQuoted_minZero (l : Text) (ls : List Text) (h : minIndentZero ls = true) :
+    SdlPrintT.needsQuoted (l :: ls) = false := by
+  simp only [minIndentZero, List.any_eq_true, List.mem_filter, Bool.not_eq_true', beq_iff_eq] at h
+  obtain ⟨m, ⟨hm, hnb⟩, hz⟩ := h
+  have hb : SdlPrintT.isBlankLine m = false := by
+    have e : (fun c : Nat => c == 32 || c == 9) = Spec.isWhiteSpace := by
+      funext c; simp [Spec.isWhiteSpace, Bool.or_comm]
+    rw [← hnb]; simp [SdlPrintT.isBlankLine, lineBlank, e]
+  have hs : SdlPrintT.startsWs m = false := by
+    cases m with
+    | nil => rfl
+    | cons c t =>
+      cases hc : SdlPrintT.startsWs (c :: t) with
+      | false => rfl
+      | true =>
+        exfalso
+        have hw : Spec.isWhiteSpace c = true := by
+          simp only [SdlPrintT.startsWs, Bool.or_eq_true, beq_iff_eq] at hc
+          rcases hc with rfl | rfl <;> decide
+        simp [lineIndent, List.takeWhile_cons, hw] at hz
+  have : ((ls.filter (fun l => !SdlPrintT.isBlankLine l)).all SdlPrintT.startsWs) = false := by
+    rw [List.all_eq_false]
+    exact ⟨m, List.mem_filter.2 ⟨hm, by simp [hb]⟩, by simp [hs]⟩
+  simp [SdlPrintT.needsQuoted, this]
+
 /-- LAYER (ii): a description that satisfies `descTextOK` at its depth is printed as one BlockString token with the
     description as value (`descToDoc` keeps it; the tree has it as a block string) -/
 theorem descPart_of_ok (o : SdlPrintT.OptsT) (hind : Blank o.indent) (hdesc : o.descriptions = true) (d : Option String)
@@ -205,15 +254,16 @@ theorem descPart_of_ok (o : SdlPrintT.OptsT) (hind : Blank o.indent) (hdesc : o.
       have hfirst : onlyWhiteSpace l = false := by simpa [lineBlank, onlyWhiteSpace] using hfb
       have hlast : onlyWhiteSpace ((l :: ls).getLast (by simp)) = false := by
         rw [← getLastD_eq_getLast]; simpa [lineBlank, onlyWhiteSpace] using hlb
-      have hsh : if ((l :: ls).length == 1 && l.length < 70 && !(l.getLast? == some 34)) = true then l.getLast? ≠ some 92
+      have hshq : (if ((l :: ls).length == 1 && l.length < 70 && !(l.getLast? == some 34)) = true then l.getLast? ≠ some 92
           else if l.length > (SdlPrintT.lstrip l).length then (ls = [] ∨ ls.foldl indentStep none = some 0)
-          else (l :: ls).foldl indentStep none = some 0 := by
+          else (l :: ls).foldl indentStep none = some 0) ∧ SdlPrintT.needsQuoted (l :: ls) = false := by
         by_cases hone : ((l :: ls).length == 1 && l.length < 70 && !(l.getLast? == some 34)) = true
         · rw [if_pos hone]
           simp only [Bool.and_eq_true, beq_iff_eq, decide_eq_true_eq, Bool.not_eq_true', beq_eq_false_iff_ne] at hone
           have hs := hshape
           simp [hone.1.1, hone.1.2, hone.2] at hs
-          exact hs
+          have hls : ls = [] := by simpa using hone.1.1
+          exact ⟨hs, by rw [hls]; exact needsQuoted_single l⟩
         · rw [if_neg hone]
           have hone' : ¬ ((l :: ls).length = 1 ∧ l.length < 70 ∧ l.getLast? ≠ some 34) := by
             intro hc; apply hone; simp [hc.1, hc.2.1, hc.2.2]
@@ -226,26 +276,28 @@ theorem descPart_of_ok (o : SdlPrintT.OptsT) (hind : Blank o.indent) (hdesc : o.
             split at hs
             · rename_i hh; exact absurd hh hc
             · by_cases hls : ls = []
-              · exact Or.inl hls
-              · right
-                have : minIndentZero ls = true := by
+              · exact ⟨Or.inl hls, by rw [hls]; exact needsQuoted_single l⟩
+              · have : minIndentZero ls = true := by
                   rcases hs with h | h
                   · exact absurd h hls
                   · exact h
-                exact foldl_indentStep_zero ls this
+                exact ⟨Or.inr (foldl_indentStep_zero ls this), needsQuoted_minZero l ls this⟩
           · rw [if_neg hlead]
             have hs := hshape
             simp [hlead] at hs
             split at hs
             · rename_i hh; exact absurd hh hc
-            · exact foldl_indentStep_zero _ hs
+            · exact ⟨foldl_indentStep_zero _ hs, needsQuoted_notLead l ls hlead⟩
+      obtain ⟨hsh, hq⟩ := hshq
+      have hcr : 13 ∉ SdlPrintT.T x := by
+        intro hmem; have := hch 13 hmem; revert this; decide
       have lq := lay_descQuoted (SdlPrintT.repeatText o.indent depth) l ls hind' hlines hchars hfirst hlast hsh
       -- the printed text
       have hxe : x.isEmpty = false := hxne
       have htxt : SdlPrintT.printDescription o (some x) depth first =
           ((if !(SdlPrintT.repeatText o.indent depth).isEmpty && !first then [10] else []) ++
             (SdlPrintT.repeatText o.indent depth ++ (tq ++ (SdlPrintT.descBody (SdlPrintT.repeatText o.indent depth) (l :: ls) ++ tq)))) ++ [10] := by
-        simp [SdlPrintT.printDescription, hdesc, hxe, hsp, hwrap, tq, List.append_assoc]
+        simp [SdlPrintT.printDescription, hdesc, hxe, hsp, hwrap, hq, hcr, tq, List.append_assoc]
       have hyield : Item.yieldAll (descV (descOf (descToDoc (some x)))) = [(.blockString, joinLF (l :: ls))] := by
         simp [descToDoc, hxe, descOf, descV, optV, stringV, Item.yieldAll, Item.yield, ht]
       rw [htxt, hyield]
